@@ -334,7 +334,8 @@ class Waiting(State):
             self.done_callback = getattr(self.process, callback_name)
         else:
             self.done_callback = None
-        self._waiting_future = futures.Future()
+        # On the loop of the process: the state may be loaded by code that runs outside of it
+        self._waiting_future = futures.Future(loop=self.process.loop)
 
     def exit(self) -> None:
         super().exit()
